@@ -3,7 +3,7 @@
 # Confirms a seeded change independently in a scratch worktree (outside /repo and /verif):
 #  1. patch applies and the touched module builds, 2. existing tests of the touched packages pass with it,
 #  3. the demonstration fails with it, 4. the demonstration passes without it.
-# Then runs our check against it (apply to /repo, check, revert) and stores everything under /verif/seeded/<prop>/<name>/.
+# Then runs our check against the worktree with the change applied and stores everything under /verif/seeded/<prop>/<name>/.
 set -u
 export GOFLAGS=-mod=mod GOPROXY=off GOSUMDB=off GOTOOLCHAIN=local
 src=$1; prop=$2; name=$3
@@ -27,10 +27,11 @@ echo "== existing tests WITH patch: $pkgs" >>$log
 tests=0
 for p in $pkgs; do m=$wt/$p; while [ ! -f "$m/go.mod" ]; do m=$(dirname "$m"); done; r=$(python3 -c "import os;print('./'+os.path.relpath('$wt/$p','$m'))"); (cd $m && go test -count=1 -timeout 900s "$r" >>$log 2>&1) || tests=1; done
 echo "== demo WITH patch" >>$log; run_demo; with=$?
-(cd $wt && git checkout -- .)
-# our check
+# our check: the registered quick check, run against the scratch worktree with the change applied
+# (REPO_DIR; the same as applying the change to /repo, running the check and reverting — see try_seed.sh)
 cp "$src/patch.diff" "$out/patch.diff"; cp "$demo" "$out/$(basename $demo)"
-chk=$(/verif/tools/try_seed.sh "$src/patch.diff" "$prop" quick 2>&1)
+chk=$(REPO_DIR="$wt" VERIF_DIR=/verif GOVC_NO_EVIDENCE=1 /verif/bin/govc check --property "$prop" --tier quick 2>&1; echo "exit=$?")
+(cd $wt && git checkout -- .)
 echo "$chk" | grep -E "VIOLATION|property $prop|exit=" > $out/check.txt
 caught=$(echo "$chk" | grep -c "^VIOLATION")
 python3 - <<PY
